@@ -209,6 +209,82 @@ CHECKS = {
               "clauses of the property apply to it)."),
         technique="TLA+ models of repair loop / label rule / mode / detrend skeleton checked with TLC + replay of exported label vectors + trace validation",
     ),
+    "C08": dict(
+        category="model_checking",
+        text=("TLC checks spec/mc/MC_Geometry.tla (over spec/lib/Geometry.tla: site grids, both metadata encodings incl. the NP1 "
+              "column flip and tip offset, ADC group / delay as functions of the original channel number, the (shank,row,-col) sort, "
+              "restriction to a shank) stepping geometry_from_meta through map / convert / adc / split / sort for every ordered "
+              "selection of <= 4/5 distinct sites of a small grid x encodings x sort x split, plus facts checked once on the real "
+              "grids (grid inverse on all sites, per-ADC delays exactly k/13 or k/16, dense layouts). Headers exported by TLC are "
+              "replayed on the real geometry_from_meta (metagen files in both encodings); every return form of the real code "
+              "(geometry_from_meta, read_geometry, Reader.geometry, trace_header, split_trace_header) for thousands of site tables "
+              "incl. random 384-of-grid tables in random order is validated by spec/trace/GeometryTrace.tla."),
+        design_ref="DESIGN.md §4 C08",
+        note=("Trusted: TLC; metagen (cross-checked by the trace spec, which re-derives the encodings from the site table). Exhaustive "
+              "inside the box, full size sampled. Original channel number = position of the entry in the site table (for a split "
+              "file: in the parent's table); saved-channel subsets that are not prefixes are outside the quantifier."),
+        technique="TLA+ geometry model checked with TLC + replay of exported headers + trace validation of every return form",
+    ),
+    "C01": dict(
+        category="model_checking",
+        text=("TLC checks spec/lib/ReaderIndex.tla + PySlice.tla: Reader.read / __getitem__ (selector permuted through the raw "
+              "channel order, row gather through the memmap path or the chunked mtscomp path incl. the negative-step branch, gain "
+              "gather with the same selector) equals indexing the whole calibrated, permuted array, cell by cell on tokens <sample, "
+              "on-disk column, gain class>, for every selector of a box (n <= 6/8 samples, start/stop in None u -(n+2)..n+2, steps "
+              "+-1..3, ints, lists; bin and cbin; all permutations of <= 4/5 channels). TLC's selector tables drive the real reads "
+              "on 11 probe records x sort on/off x bin/cbin; returned values decoded to tokens are validated by "
+              "spec/trace/ReaderTrace.tla (also: raw_channel_order is the (shank,row,-col) order, geometry entry i is column i)."),
+        design_ref="DESIGN.md §4 C01",
+        note=("Trusted: TLC; harness/c01.py + metagen. float32(raw) x factor for all 65536 values x 8 gains x AP/LF/nidq is a numeric "
+              "projection on the real output (rel. 2e-6; factor derived independently as range/maxint/gain), not TLC. A list sample "
+              "selector combined with a list column selector is excluded (the property text does not fix NumPy pairing vs outer "
+              "product)."),
+        technique="TLA+ indexing model (PySlice/ReaderIndex) checked with TLC + TLC-exported selector tables replayed + trace validation of real reads",
+    ),
+    "C10": dict(
+        category="model_checking",
+        text=("TLC checks spec/lib/SyncBits.tla (all 65536 words through the view / unpack / roll / flip steps of split_sync against "
+              "line k = bit k; row layout of read_sync with analog lines thresholded in integer arithmetic) and spec/lib/TTL.tla "
+              "(every 0/1 train of 2/3 lines x length <= 6, step/amplitude box, 1-D and both orientations of 2-D: fronts / rises / "
+              "falls = exactly the change events). The real split_sync on all 65536 words, Reader.read_sync / read_sync_digital / "
+              "read_sync_analog on 3B, 3A, 3B1 and nidq recordings (analog samples just below / at / above the threshold over "
+              "random floors) and fronts / rises / falls on trains read back from real files are validated by SyncBitsTrace / "
+              "TTLTrace; every exported train is replayed on arrays (5 dtypes, all axes) and on real recordings."),
+        design_ref="DESIGN.md §4 C10",
+        note=("Trusted: TLC; metagen; exact-float construction of the nidq analog lines (no numeric projection needed). Trains "
+              "exhaustive up to 3 lines x 6 samples, long trains sampled; one digital word (DW = 1)."),
+        technique="TLA+ bit/TTL models checked with TLC + exhaustive trace validation of split_sync + replay of exported trains on real recordings",
+    ),
+    "C16": dict(
+        category="model_checking",
+        text=("TLC checks spec/lib/Saturation.tla: over/slew counts vs the proportion in exact integer arithmetic (cnt*b > a*nc) for "
+              "all count vectors of small channel counts, and the mute gain as interval arithmetic over bounds of the cosine taps "
+              "for all flag vectors of length <= 9/11 x widths 1..9/12: gain in [0,1], zero on every flag, one farther than the "
+              "half-width from any flag, depends on the flags only. Every exported abstract input is realised twice with voltages "
+              "placed just below / at / above 0.98 x range and the slew limit (scalar and per-channel ranges, channel counts "
+              "replicated to 400, ranges read through the real Reader.range_volts for 3B2/3A/NP2 files) and the real saturation() "
+              "output is compared with the export and validated by spec/trace/SaturationTrace.tla."),
+        design_ref="DESIGN.md §4 C16",
+        note=("Trusted: TLC; harness/c16.py. gain == 0 / == 1 / within [0,1] and equality of two gains are 1e-12 projections; the "
+              "cosine-tap bounds table is checked against scipy at run time; a channel exactly at the slew limit is accepted either "
+              "way (text: 'exceed', code: >=)."),
+        technique="TLA+ count/mute-interval model checked with TLC + replay of exported inputs + trace validation of real saturation() calls",
+    ),
+    "C18": dict(
+        category="model_checking",
+        text=("TLC checks spec/lib/Spectral.tla: convolve as pad / transform / inverse / crop / mode-crop on impulses (every impulse "
+              "pair for lengths <= 10/14, first and last impulse for every pair of lengths <= 80/200) against the textbook full and "
+              "same windows; ns_optim minimality, fscale, reduce / expand index maps, filter gain placement for every axis of "
+              "1-3-D arrays, lp/hp complement classes. The real convolve on the full impulse basis (every pair <= 24^2/40^2 plus "
+              "every pair with an odd padded size), ns_optim_fft to 1e6, fscale, freduce / fexpand tagged-spectrum maps and lp/hp "
+              "gain classes are validated by spec/trace/SpectralTrace.tla; TLC-exported padded sizes and 'same' offsets for 80^2 / "
+              "300^2 length pairs are replayed on the real convolve."),
+        design_ref="DESIGN.md §4 C18",
+        note=("Trusted: TLC; harness/c18.py. dft = fft, lp + hp = Id, bp = hp o lp, dense random convolution vs direct convolution "
+              "and fcn_cosine monotonicity are numeric projections (1e-9 .. 1e-12). 'full' accepts n+m samples with a trailing zero "
+              "(as the repository's own test does)."),
+        technique="TLA+ index-map model of the spectral helpers checked with TLC + trace validation on the impulse basis + replay of exported sizes/offsets",
+    ),
 }
 
 NOT_YET = {}
